@@ -64,6 +64,10 @@ func (b *Bundle) Opts() []string {
 			if len(b.Aux) == 0 && mode != "expand" {
 				out = append(out, o+"+keep")
 			}
+			if len(b.Aux) == 0 && (ru == (mode == "full")) {
+				// a single document needs no base path: min+nobase, full+ru+nobase, expand+nobase
+				out = append(out, o+"+nobase")
+			}
 		}
 	}
 	return out
